@@ -16,7 +16,7 @@ NRUNS = {"quick": 2200, "thorough": 30000}
 
 
 def generate(rng, tier):
-    return worlds.gen_find_world(rng, min_copies=0)
+    return worlds.gen_find_world(rng, min_copies=0, moderate_noise=True)
 
 
 def execute(spec, ctx):
